@@ -3,7 +3,7 @@
    runner and by vm_compute inside Coq (Cases_*.v). *)
 From Coq Require Import List NArith ZArith Bool String.
 From Coq.Strings Require Import Byte.
-From OAP Require Import Base.Bytes Base.Res Base.Text Gen.Consts Model.Handshake Model.Metadata Model.Header Model.Frame Model.Stream Model.Chunks Model.World Model.Ids Model.Waiters Model.Dispatch Model.WritePath Model.Recovery Model.Keepalive Model.WsBridge Model.Life Model.CloseLock Model.Ring.
+From OAP Require Import Base.Bytes Base.Res Base.Text Gen.Consts Model.Handshake Model.Metadata Model.Header Model.Frame Model.Stream Model.Chunks Model.World Model.Ids Model.Waiters Model.Dispatch Model.WritePath Model.Recovery Model.Keepalive Model.WsBridge Model.Life Model.CloseLock Model.Ring Model.RingFast.
 Import ListNotations.
 Local Open Scope N_scope.
 
@@ -714,7 +714,7 @@ Definition run_cl (args : list bytes) : bytes :=
   | _ => bad end.
 
 (* ---- concrete ring (Model/Ring.v) ----
-   rg.ops <size> <backing array, hex> <r> <w> <empty 0|1> <op> ...   with op = l | p<n> | r<n> | w<hex>
+   rg.ops <size> <backing array, hex> <r> <w> <empty 0|1> <op> ...   with op = l | a | p<n> | r<n> | w<hex>
    output: one item per op ("L <len>", "P <first>|<end>", "R", "W") joined by " ; ", then " ; S <size> <r> <w> <empty> <content>" *)
 Definition run_rg (op : bytes) (args : list bytes) : bytes :=
   match args with
@@ -726,6 +726,8 @@ Definition run_rg (op : bytes) (args : list bytes) : bytes :=
             match acc, o with
             | Some (g, out), k :: n =>
                 if byte_eqb k "l"%byte then Some (g, out ++ [str "L " ++ decn (ring_length g)])
+                else if byte_eqb k "a"%byte then
+                  let fe := ring_peek_all g in Some (g, out ++ [str "A " ++ hex (fst fe) ++ str "|" ++ hex (snd fe)])
                 else if byte_eqb k "w"%byte then
                   match unhexx n with Some d => Some (ring_write x00 g d, out ++ [str "W"]) | None => None end
                 else match undec n with
